@@ -9,6 +9,7 @@
 #include <unifex/scheduler_concepts.hpp>
 #include <unifex/sender_concepts.hpp>
 #include <unifex/inplace_stop_token.hpp>
+#include <cstring>
 #include "vh.hpp"
 using namespace unifex;
 
@@ -24,9 +25,13 @@ struct item_receiver {
   void log(const char* kind) const noexcept {
     dsched::action("run %d.%d %s new=%d", p, j, kind, (int)(dsched::self() != starter_tid));
   }
-  void set_value() && noexcept { log("value"); }
-  void set_done() && noexcept { log("done"); }
-  template <class E> void set_error(E&&) && noexcept { log("error"); }
+  // third program word "d": the completion destroys the operation state and overwrites its storage, as a
+  // receiver that owns its operation may (new_thread_context.hpp run(): "the receiver methods will likely end
+  // up destroying the operation-state object before they return")
+  void finish(const char* kind) noexcept;
+  void set_value() && noexcept { finish("value"); }
+  void set_done() && noexcept { finish("done"); }
+  template <class E> void set_error(E&&) && noexcept { finish("error"); }
   friend inplace_stop_token tag_invoke(tag_t<get_stop_token>, const item_receiver& r) noexcept;
 };
 using sched_t = decltype(std::declval<new_thread_context&>().get_scheduler());
@@ -41,6 +46,15 @@ struct Shared {
   ~Shared() { for (int p = 0; p < MAXP; ++p) for (int j = 0; j < MAXI; ++j) if (made[p][j]) ops[p][j].destruct(); }
 };
 inplace_stop_token tag_invoke(tag_t<get_stop_token>, const item_receiver& r) noexcept { return r.sh->src[r.p][r.j].get_token(); }
+bool g_destroy_on_completion = false;
+void item_receiver::finish(const char* kind) noexcept {
+  log(kind);
+  if (!g_destroy_on_completion) return;
+  Shared* s = sh; int x = p, i = j;          // *this lives inside the operation state
+  s->made[x][i] = false;
+  s->ops[x][i].destruct();
+  std::memset(static_cast<void*>(&s->ops[x][i]), 0x5A, sizeof(s->ops[x][i]));
+}
 
 std::vector<int> parse_counts(const std::string& s) {
   std::vector<int> v; std::stringstream ss(s); std::string t;
@@ -60,6 +74,7 @@ int main(int argc, char** argv) {
   const std::vector<int> counts = parse_counts(cli.prog.at(0));
   const auto stops = parse_items(cli.prog.size() > 1 ? cli.prog[1] : "-");
   const int p = (int)counts.size();
+  g_destroy_on_completion = cli.prog.size() > 2 && cli.prog[2] == "d";
   if (p >= MAXP) { std::printf("FATAL too many starters\n"); return 2; }
   for (int c : counts) if (c > MAXI) { std::printf("FATAL too many items\n"); return 2; }
   int total = 0; for (int c : counts) total += c;
